@@ -462,6 +462,8 @@ def oracle_c05(cid, impl, m):
     """All or nothing under injected statement faults: a request that is not answered ok leaves the relationship
     table (order and multiset) and the mapping table exactly as before; an ok request applies completely
     (multiset = specification)."""
+    if impl.get("x_nil_probe"):
+        return ("c05-nil-entry", impl["x_nil_probe"])
     if "spec" not in m:
         return None
     prev = None
@@ -749,6 +751,8 @@ def oracle_c06_engine(cid, impl, m):
     and direct memberships for every subject set of A: the answer must be the one the
     model computes from A's tuples alone (the correspondence), and equal the reference
     semantics on A when limits are not binding."""
+    if impl.get("x_expand_leak"):
+        return ("c06-expand-leak", "expand in network A changed when network B was filled: " + impl["x_expand_leak"][:400])
     if impl.get("res", "").startswith("network-leak"):
         return ("c06-leak", "listing network A returned rows that were written to network B only: " + impl.get("x_detail", ""))
     return oracle_c01(cid, impl, m)
